@@ -42,6 +42,7 @@ namespace {
 struct Plan {
     std::string data;
     size_t chunk = 128;
+    std::vector<size_t> pieces;   // if not empty: the n-th read() returns pieces[n] bytes (then `chunk`-sized ones)
     int fail_read = 0;        // the j-th read() throws (1-based); 0 = never
     bool fail_close = false;
 } g_plan;
@@ -57,7 +58,8 @@ public:
         ++m_n; ++g_ms.reads;
         if (g_ms.reader_closed) ++g_ms.reads_after_reader_close;
         if (g_plan.fail_read == m_n) throw std::runtime_error{"injected read error"};
-        std::string r = g_plan.data.substr(std::min(m_pos, g_plan.data.size()), g_plan.chunk);
+        const size_t want = static_cast<size_t>(m_n) <= g_plan.pieces.size() ? g_plan.pieces[static_cast<size_t>(m_n) - 1] : g_plan.chunk;
+        std::string r = g_plan.data.substr(std::min(m_pos, g_plan.data.size()), want);
         m_pos += r.size();
         set_offset(m_pos);
         return r;
@@ -125,6 +127,14 @@ void body(const Cfg& c) {
     std::string path;
     if (c.fmt == "pbf") {
         path = g_dir + "/" + c.f.kind + std::to_string(c.f.pos) + ".pbf";
+    } else if (c.fmt == "pbfq" || c.fmt == "pbfa") {
+        // PBF through the read thread and the input queue (a ".pbf.gz" file name makes the Reader use the registered - mock -
+        // decompressor): pbfq = 128-byte pieces, pbfa = one piece per blob (every fault then falls on a blob boundary)
+        for (auto& b : g_pbf_blocks) g_plan.data += b;
+        if (c.fmt == "pbfa") for (auto& b : g_pbf_blocks) g_plan.pieces.push_back(b.size());
+        if (c.f.kind == "read") g_plan.fail_read = c.f.pos;
+        if (c.f.kind == "close") g_plan.fail_close = true;
+        path = g_dir + "/in.pbf.gz";
     } else {
         std::string t = g_text[c.fmt];
         if (c.f.kind == "corrupt") {
@@ -260,6 +270,7 @@ int main(int argc, char** argv) {
     g_text["osm"] = to_xml(g_data);
     put("in.opl.gz", "placeholder");
     put("in.osm.gz", "placeholder");
+    put("in.pbf.gz", "placeholder");
     write_pbf(g_dir + "/full.pbf", g_data, true); tmpfiles.push_back("full.pbf");
     g_pbf_blocks = split_pbf(slurp(g_dir + "/full.pbf"));
     const int nblocks = static_cast<int>(g_pbf_blocks.size());     // header + 6 data blocks (2 objects each)
@@ -316,6 +327,15 @@ int main(int argc, char** argv) {
         }
     }
 
+    std::vector<Fault> faults_pbfq, faults_pbfa;
+    {
+        Fault none; none.kind = "none"; none.intact_objects = g_data.size(); none.exact = true;
+        size_t total = 0; for (auto& b : g_pbf_blocks) total += b.size();
+        faults_pbfq.push_back(none); faults_pbfa.push_back(none);
+        for (size_t j = 1; j <= (total + 127) / 128 + 1; ++j) { Fault f; f.kind = "read"; f.pos = static_cast<int>(j); f.expect_error = true; f.intact_objects = g_data.size(); if (T || j <= 4 || j % 3 == 0 || j + 2 >= (total + 127) / 128) faults_pbfq.push_back(f); }
+        for (size_t j = 1; j <= g_pbf_blocks.size() + 1; ++j) { Fault f; f.kind = "read"; f.pos = static_cast<int>(j); f.expect_error = true; f.intact_objects = g_data.size(); faults_pbfa.push_back(f); }
+        { Fault f; f.kind = "close"; f.expect_error = true; f.intact_objects = g_data.size(); faults_pbfq.push_back(f); faults_pbfa.push_back(f); }
+    }
     struct Job { Cfg c; vsched::Options o; };
     std::vector<Job> deep, wide;
     std::vector<Script> all_scripts;
@@ -324,18 +344,19 @@ int main(int argc, char** argv) {
     for (int h = 0; h < 2; ++h) for (int r : {0, 1, 2}) for (int cl = 0; cl < 2; ++cl) { Script s{h != 0, r, cl != 0}; s.idle = true; all_scripts.push_back(s); }
     std::vector<Script> deep_scripts = {{false, -1, true}, {true, 1, true}, {false, 0, false}, {true, -1, false}};
     { Script s{true, 1, true}; s.idle = true; deep_scripts.push_back(s); Script d{false, 0, false}; d.idle = true; deep_scripts.push_back(d); }
-    auto faults_for = [&](const std::string& fmt) -> std::vector<Fault>& { return fmt == "opl" ? faults_text_opl : fmt == "osm" ? faults_text_xml : faults_pbf; };
-    for (std::string fmt : {"opl", "osm", "pbf"}) {
+    auto faults_for = [&](const std::string& fmt) -> std::vector<Fault>& { return fmt == "opl" ? faults_text_opl : fmt == "osm" ? faults_text_xml : fmt == "pbfq" ? faults_pbfq : fmt == "pbfa" ? faults_pbfa : faults_pbf; };
+    for (std::string fmt : {"opl", "osm", "pbf", "pbfq", "pbfa"}) {
         for (auto& f : faults_for(fmt)) {
             // every script x every fault at bound 0 (pool 1 and 2 alternate); the deep scripts at k <= 1|2
             int alt = 0;
             for (auto& s : all_scripts) {
-                if (saturate && (!s.idle || f.kind != "none" || fmt == "pbf")) continue;
+                if (saturate && (!s.idle || f.kind != "none" || fmt.compare(0, 3, "pbf") == 0)) continue;
                 vsched::Options o; o.delay_bounded = true; o.max_bound = 0; o.workers = 1;
                 wide.push_back({Cfg{fmt, 1 + (alt++ % 2), (alt % 3) ? "2" : "3", s, f}, o});
             }
             for (auto& s : deep_scripts) {
-                if (saturate && (!s.idle || f.kind != "none" || fmt == "pbf")) continue;
+                if (saturate && (!s.idle || f.kind != "none" || fmt.compare(0, 3, "pbf") == 0)) continue;
+                if (!T && fmt == "pbfq" && f.kind == "read" && f.pos > 3) continue;
                 if (!T && fmt == "osm" && f.kind == "read" && f.pos > 3) continue;      // XML has many chunks: keep quick small
                 vsched::Options o; o.delay_bounded = true; o.max_bound = T ? 2 : 1; o.workers = 16;
                 deep.push_back({Cfg{fmt, 2, "2", s, f}, o});
